@@ -17,10 +17,8 @@
         which has no rows: the result is the empty table (not the cross product);
         [joined(..., inner_join=False, col_prefix=p)] ignores [p] (always "right_");
         both are transcribed as they are, the specification is silent on them;
-      - numpy's [argsort] on a record array is modelled as a STABLE insertion
-        sort.  numpy's default introsort is an insertion sort (hence stable)
-        only for short arrays; on longer arrays the code is not stable and the
-        correspondence check reports that as a violation of the property.
+      - [data.argsort(kind="stable")] on the record array is modelled as a stable
+        insertion sort (any stable sort gives the same list, Lib/StableSort.v).
 
     No proofs in this file. *)
 From CG3 Require Import Lib.PyZ Lib.Chars Lib.StableSort Lib.Val.
@@ -39,6 +37,7 @@ Arguments Er {A} e.
 Definition bind {A B} (r : res A) (f : A -> res B) : res B :=
   match r with Ok a => f a | Er e => Er e end.
 
+Definition E_NotModelled : Z := 77.
 Definition E_Assert : Z := 9.
 Definition E_Runtime : Z := 9.
 
@@ -177,11 +176,8 @@ Definition product_sel (n m : nat) : list nat * list nat :=
 
 Definition cross_join (self other : table) (prefix : str) : res table :=
   let '(ss, os) := product_sel (nrows self) (nrows other) in
-  (* self_selected, other_selected = list(zip( *product(..))) : ValueError when the product is empty *)
-  match ss with
-  | [] => Er E_Value
-  | _ :: _ => assemble self other (hdr other) prefix ss os
-  end.
+  (* pairs = list(product(..)); self_selected = [i for i, _ in pairs]; other_selected = [j for _, j in pairs] *)
+  assemble self other (hdr other) prefix ss os.
 
 (* ------------------------------------------------------------------ inner_join l.950-1050 *)
 
@@ -382,13 +378,10 @@ Definition dtype_of (c : list cell) : dtype :=
   if forallb is_CI c then DInt else if forallb is_CS c then DStr
   else if forallb is_CB c then DBool else DObj.
 
-(* _reverse_str: x.translate(_reversed_chrs); code points >= 256 stay *)
-Definition reverse_chr (c : Z) : Z := if (0 <=? c) && (c <? 256) then 255 - c else c.
-
+(* _reverse_num: x * -1 (only ever applied to numeric columns) *)
 Definition reverse_cell (c : cell) : cell :=
   match c with
   | CI z => CI (z * -1)
-  | CS s => CS (map reverse_chr s)
   | other => other
   end.
 
@@ -448,7 +441,28 @@ Definition sort_columns (t : table) (columns reverse : option (list str)) : list
     end in
   (columns, rev).
 
-(* one [for c in reverse] step, l.1505-1509 *)
+Definition cell_ltb (a b : cell) : bool := match cell_cmp a b with Lt => true | _ => false end.
+Definition cell_same (a b : cell) : bool := match cell_cmp a b with Eq => true | _ => false end.
+
+(* the distinct values of a column *)
+Fixpoint distinct_cells (l : list cell) : list cell :=
+  match l with
+  | [] => []
+  | x :: l' => if existsb (cell_same x) l' then distinct_cells l' else x :: distinct_cells l'
+  end.
+
+(* numpy.unique(col, return_inverse=True)[1] : the position of x among the sorted distinct values
+   = the number of distinct values below x *)
+Definition rank_in (col : list cell) (x : cell) : Z :=
+  Z.of_nat (length (filter (fun v => cell_ltb v x) (distinct_cells col))).
+
+Definition neg_rank_cell (col : list cell) (x : cell) : cell := CI (- rank_in col x).
+
+Definition set_nth {A} (i : nat) (v : A) (l : list A) : list A :=
+  map (fun jc => if Nat.eqb (fst jc) i then v else snd jc) (enumerate l).
+
+(* one [for c in reverse] step: numeric columns are negated in place; any other
+   column is REPLACED by the negated rank of the values of the original column *)
 Definition reverse_step (t : table) (columns : list str) (data : res (list (list cell))) (c : str)
   : res (list (list cell)) :=
   bind data (fun d =>
@@ -458,8 +472,9 @@ Definition reverse_step (t : table) (columns : list str) (data : res (list (list
         bind (get_col t c) (fun orig =>
           match dtype_of orig with
           | DInt => Ok (map (fun jc => if Nat.eqb (fst jc) i then map reverse_cell (snd jc) else snd jc) (enumerate d))
-          | DStr => Ok (map (fun jc => if Nat.eqb (fst jc) i then map reverse_cell (snd jc) else snd jc) (enumerate d))
-          | _ => Er E_Type
+          | DStr => Ok (set_nth i (map (neg_rank_cell orig) orig) d)
+          | DBool => Ok (set_nth i (map (neg_rank_cell orig) orig) d)
+          | DObj => Er E_NotModelled
           end)
     end).
 
@@ -474,8 +489,6 @@ Definition sortable_dtype (c : list cell) : bool :=
 (* data.argsort() *)
 Definition argsort (keys : list (list cell)) : list nat :=
   map snd (isort_by (fun a b => key_leb (fst a) (fst b)) (combine keys (seq 0 (length keys)))).
-
-Definition E_NotModelled : Z := 77.
 
 Definition sorted (t : table) (columns reverse : option (list str)) : res table :=
   let '(columns, rev) := sort_columns t columns reverse in
